@@ -26,6 +26,7 @@ RULES = {
     "R08.3": "REP send: write only under Some(requester), to the entry looked up by that id; None -> message returned untouched",
     "R08.4": "REP recv: requester := key of the returned item, stored only on the Ok exit",
     "R08.5": "one peer-table entry per connection: fresh unique key for anonymous clients (C04 R04.3), overwrite on reconnect (C04 R04.4)",
+    "R08.F": "foundation clauses re-evaluated as necessary conditions: " + ", ".join(['decoder']),
 }
 
 
@@ -102,7 +103,12 @@ def self_stores(p, upto=None):
     return [ev for ev in evs if ev.kind == "store" and ev.place.startswith("(*_") and not ev.place.startswith("(*_1)")]
 
 
+DEPENDS = ['decoder']     # foundation groups re-evaluated as necessary conditions (rules/found.py)
+
+
 def run(ctx, f, rep):
+    from . import found
+    found.import_groups(ctx, f, rep, 'C08', DEPENDS)
     mreq = marker_field(f, "req::ReqSocket")
     mrep = marker_field(f, "rep::RepSocket")
     rep.check(mreq is not None, "R08.1", "R08.1|marker-anchor", "REQ request marker field (Option<PeerIdentity>): %s" % mreq)
